@@ -373,6 +373,9 @@ pub fn run(ctx: &Ctx) -> CheckOutput {
 			}
 		}
 	}
+	for k in 0..3 {
+		w.write(&format!("stdin-fixture-{k}"), stdin_bytes(k));
+	}
 	let dir = w.path().to_path_buf();
 	let tallies = par_fold(&jobs, Tally::default, |t, idx, (argv, k, out)| {
 		let mut sp = Spawn::new(&dir, argv);
@@ -390,6 +393,22 @@ pub fn run(ctx: &Ctx) -> CheckOutput {
 		}
 		if let Some((class, msg)) = judge(argv, *k, out, &dir, &canon, &o) {
 			t.bad(class, case_json(argv, *k, out), format!("xt {argv:?} stdin={} stdout={out:?}: {msg}", stdin_name(*k)));
+		}
+		// the same with standard input redirected from a regular file (`xt - - < file`): the descriptor can
+		// then be mapped or sought, but it is still standard input, read at most once
+		if *out == Stdout::Pipe && !p.invalid && !p.asks_help && (p.inputs.is_empty() || p.inputs.iter().any(|a| a == "-")) {
+			let mut sp = Spawn::new(&dir, argv);
+			sp.stdin = Stdin::File(dir.join(format!("stdin-fixture-{k}")));
+			sp.release = idx % 2 == 1;
+			sp.timeout = std::time::Duration::from_secs(20);
+			let o = proc::run(&sp);
+			t.evaluations += 1;
+			t.count("stdin:regular-file");
+			if let Some((class, msg)) = judge(argv, *k, out, &dir, &canon, &o) {
+				let mut case = case_json(argv, *k, out);
+				case["stdin_file"] = json!(true);
+				t.bad(format!("{class}:stdin-regular-file"), case, format!("xt {argv:?} stdin={} (a regular file) stdout={out:?}: {msg}", stdin_name(*k)));
+			}
 		}
 		if idx % 20011 == 0 {
 			t.sample(5, || json!({"argv": argv, "stdin": stdin_name(*k), "stdout": format!("{out:?}"), "exit": o.exit.to_string()}));
@@ -493,11 +512,11 @@ pub fn run(ctx: &Ctx) -> CheckOutput {
 	});
 	tally.merge(Tally::merge_all(ts));
 	let req = |k: &str| (k.to_string(), *tally.counters.get(k).unwrap_or(&0));
-	let required = vec![req("sized-inputs"), req("argv:invalid"), req("argv:help"), req("argv:valid"), req("stdout:Pipe"), req("stdout:File"), req("stdout:Pty"), req("stdout:DevFull"), req("stdin:two-bursts")];
+	let required = vec![req("sized-inputs"), req("stdin:regular-file"), req("argv:invalid"), req("argv:help"), req("argv:valid"), req("stdout:Pipe"), req("stdout:File"), req("stdout:Pty"), req("stdout:DevFull"), req("stdin:two-bursts")];
 	CheckOutput {
 		level: "exploration",
 		tally,
-		rule: format!("all argument vectors of length <= {} over a vocabulary of {} words (-f/-t with valid names and aliases in attached, detached and '=' form, missing values, invalid names, repeated options, unknown short/long options, -h --help -V --version, '--', '-', translatable / malformed / undetectable / unrepresentable / missing / directory paths) x stdin in {{translatable, malformed, empty}} x stdout in {{pipe, regular file, pseudo-terminal}} (+ /dev/full for the short vectors: a run with output must then exit 1 with 'xt error'), run through the real binary (debug and release alternating); reference model: conventional option parsing per doc/xt.1 (invalid, asks_help) plus the library's own verdict and bytes for the input list. Oracle: exit 2 <=> invalid (and no help request) with empty stdout and an 'xt error' + usage message on stderr; exit 0 <=> help/version or every input translated, stdout exactly the help text or the library's bytes; otherwise exit 1, stderr begins 'xt error' and names the failing input, stdout is a byte prefix of the library's bytes; MessagePack never reaches a terminal; never a signal. Plus JSON streams of every exact size 2^k-1, 2^k, 2^k+1 around 4 KiB..64 KiB, complete and malformed at the end, as a regular file, a FIFO and on standard input: exit 0 with the library's bytes and empty stderr, or exit 1 naming the input with a prefix of them. Non-trivial = valid argv without help.", if thorough { "3 (+ length 4 behind two fixed heads)" } else { "2 (all combinations) and 3 (two stdin/stdout combinations)" }, vocab.len()),
+		rule: format!("all argument vectors of length <= {} over a vocabulary of {} words (-f/-t with valid names and aliases in attached, detached and '=' form, missing values, invalid names, repeated options, unknown short/long options, -h --help -V --version, '--', '-', translatable / malformed / undetectable / unrepresentable / missing / directory paths) x stdin in {{translatable, malformed, empty}} x stdout in {{pipe, regular file, pseudo-terminal}} (vectors that read standard input also with it redirected from a regular file) (+ /dev/full for the short vectors: a run with output must then exit 1 with 'xt error'), run through the real binary (debug and release alternating); reference model: conventional option parsing per doc/xt.1 (invalid, asks_help) plus the library's own verdict and bytes for the input list. Oracle: exit 2 <=> invalid (and no help request) with empty stdout and an 'xt error' + usage message on stderr; exit 0 <=> help/version or every input translated, stdout exactly the help text or the library's bytes; otherwise exit 1, stderr begins 'xt error' and names the failing input, stdout is a byte prefix of the library's bytes; MessagePack never reaches a terminal; never a signal. Plus JSON streams of every exact size 2^k-1, 2^k, 2^k+1 around 4 KiB..64 KiB, complete and malformed at the end, as a regular file, a FIFO and on standard input: exit 0 with the library's bytes and empty stderr, or exit 1 naming the input with a prefix of them. Non-trivial = valid argv without help.", if thorough { "3 (+ length 4 behind two fixed heads)" } else { "2 (all combinations) and 3 (two stdin/stdout combinations)" }, vocab.len()),
 		exhaustive: true,
 		bounds: json!({"argv_len": if thorough { 4 } else { 3 }, "vocabulary": vocab.len()}),
 		assumptions: vec!["the reference model of option parsing is written from the statement and doc/xt.1; argv that is both invalid and help-requesting may exit 0 or 2".into()],
@@ -522,7 +541,7 @@ pub fn replay(case: &Value) -> Option<String> {
 	};
 	for release in [true, false] {
 		let mut sp = Spawn::new(w.path(), &argv);
-		sp.stdin = Stdin::Bytes(stdin_bytes(k).to_vec());
+		sp.stdin = if case["stdin_file"] == true { Stdin::File(w.write("stdin-fixture", stdin_bytes(k))) } else { Stdin::Bytes(stdin_bytes(k).to_vec()) };
 		sp.stdout = out.clone();
 		sp.release = release;
 		let o = proc::run(&sp);
